@@ -431,19 +431,30 @@ func keyExchange(klen int, ida, idb []byte, pri *PrivateKey, pub *PublicKey, rpr
 	if err != nil {
 		return
 	}
-	k, ok := kdf(klen, vx.Bytes(), vy.Bytes(), za, zb)
+	// GM/T 0003.3: field elements enter KDF and the hashes as 32-byte strings,
+	// and the ephemeral points in the order RA = (x1, y1), RB = (x2, y2).
+	to32 := func(v *big.Int) []byte {
+		buf := v.Bytes()
+		if n := len(buf); n < 32 {
+			buf = append(zeroByteSlice()[:32-n], buf...)
+		}
+		return buf
+	}
+	vxBuf, vyBuf := to32(vx), to32(vy)
+	k, ok := kdf(klen, vxBuf, vyBuf, za, zb)
 	if !ok {
 		err = errors.New("kdf: zero key")
 		return
 	}
-	h1 := BytesCombine(vx.Bytes(), za, zb, rpub.X.Bytes(), rpub.Y.Bytes(), rpri.X.Bytes(), rpri.Y.Bytes())
-	if !thisISA {
-		h1 = BytesCombine(vx.Bytes(), za, zb, rpri.X.Bytes(), rpri.Y.Bytes(), rpub.X.Bytes(), rpub.Y.Bytes())
+	ra, rb := rpub, &rpri.PublicKey
+	if thisISA {
+		ra, rb = &rpri.PublicKey, rpub
 	}
+	h1 := BytesCombine(vxBuf, za, zb, to32(ra.X), to32(ra.Y), to32(rb.X), to32(rb.Y))
 	hash := sm3.Sm3Sum(h1)
-	h2 := BytesCombine([]byte{0x02}, vy.Bytes(), hash)
+	h2 := BytesCombine([]byte{0x02}, vyBuf, hash)
 	S1 := sm3.Sm3Sum(h2)
-	h3 := BytesCombine([]byte{0x03}, vy.Bytes(), hash)
+	h3 := BytesCombine([]byte{0x03}, vyBuf, hash)
 	S2 := sm3.Sm3Sum(h3)
 	return k, S1, S2, nil
 }
